@@ -34,8 +34,10 @@ Side(k) == LET j == File.sides[k]
            IN [tw |-> j.t > 0, t |-> j.t, D |-> ItemSet(j.D), N |-> ItemSet(j.N),
                u |-> u, U |-> T!Strip(u), n |-> n, no |-> {x.o : x \in n},
                s |-> ToSet(j.s)]
-\* every distinct side observation is converted once
-Sides == [k \in DOMAIN File.sides |-> Side(k)]
+\* every distinct side observation is converted once (TLC evaluates a function
+\* constructor lazily, per application; comparing it forces and caches the table)
+Sides == LET f == [k \in DOMAIN File.sides |-> Side(k)]
+         IN IF f = <<>> THEN <<>> ELSE f
 Obs(j) == [O |-> Sides[j.O], C |-> Sides[j.C], eq |-> j.eq, ref |-> j.ref]
 
 \* where the real outcome differs from the model's prediction
